@@ -184,6 +184,42 @@ impl Run<'_, '_> {
         ok
     }
 
+    /// an identical re-delivery of a record that is held, acknowledged and still in the store's cache: nothing
+    /// new is stored, so the held set must not change (in particular nothing may be evicted for it)
+    fn reput_identical(&mut self) {
+        if !self.settle() {
+            return;
+        }
+        let pre = self.snapshot();
+        let cached: BTreeSet<Vec<u8>> = pre.cache_keys.iter().map(|k| k.to_vec()).collect();
+        let cands: Vec<Vec<u8>> = self.held.keys().filter(|k| cached.contains(*k)).cloned().collect();
+        let Some(key) = cands.choose(&mut self.cx.rng).cloned() else { return };
+        let value = self.held.get(&key).cloned().expect("held");
+        // only when the cached copy is this very value (it is the last one accepted for the key)
+        if self.values.get(&key).and_then(|v| v.last()) != Some(&value) {
+            return;
+        }
+        let rk = RecordKey::from(key.clone());
+        let pre_keys: BTreeSet<Vec<u8>> = pre.records.iter().map(|(k, _, _)| k.to_vec()).collect();
+        let res = {
+            let _g = self.sim.rt.enter();
+            self.sim.nodes[0].drv.verif_handle_local_cmd(LocalSwarmCmd::PutLocalRecord { record: Record { key: rk, value, publisher: None, expires: None } })
+        };
+        self.cx.eval();
+        self.cx.count(if pre_keys.len() >= self.cap { "identical-reputs-at-capacity" } else { "identical-reputs" });
+        self.hist.push(json!({"identical_reput": short_hex(&key), "ok": res.is_ok(), "held": pre_keys.len()}));
+        let post_keys: BTreeSet<Vec<u8>> = self.snapshot().records.iter().map(|(k, _, _)| k.to_vec()).collect();
+        if post_keys != pre_keys {
+            let gone: Vec<String> = pre_keys.difference(&post_keys).map(|k| short_hex(k)).collect();
+            self.viol("identical-reput-changed-held-set", format!("re-delivering the identical, held and cached record {} to a store of {}/{} records removed {gone:?} from the index", short_hex(&key), pre_keys.len(), self.cap));
+            for k in pre_keys.difference(&post_keys) {
+                self.held.remove(k);
+                self.expected_removed.insert(k.clone());
+            }
+        }
+        self.settle();
+    }
+
     /// let the pipeline make progress: `n` scheduler steps
     fn progress(&mut self, n: usize) {
         for _ in 0..n {
@@ -430,7 +466,7 @@ impl Check for C10 {
         tier.pick(std::time::Duration::from_secs(200), std::time::Duration::from_secs(1500))
     }
     fn required_counters(&self, _tier: Tier) -> Vec<&'static str> {
-        vec!["capacity-decisions-judged", "evictions", "refusals", "quotes-judged", "restarts", "large-cleanups", "bursts"]
+        vec!["capacity-decisions-judged", "evictions", "refusals", "quotes-judged", "restarts", "large-cleanups", "bursts", "identical-reputs-at-capacity"]
     }
     fn run_case(&self, cx: &mut Cx) {
         if cx.index % 20 == 19 {
@@ -500,10 +536,11 @@ impl Check for C10 {
                         r.progress(n);
                     }
                 }
-                67..=74 => {
+                67..=70 => {
                     let n = r.cx.rng.gen_range(1..12);
                     r.progress(n);
                 }
+                71..=74 => r.reput_identical(),
                 75..=80 => {
                     // responsible range around the held distances
                     let ds: Vec<D32> = r.held.keys().map(|k| r.d(k)).collect();
